@@ -275,7 +275,11 @@ impl MasterRig {
     }
 
     /// asks the channel for a second association with an address that is taken already; true = refused
-    pub async fn add_duplicate_association(&mut self, addr: u16, config: AssociationConfig) -> bool {
+    pub async fn add_duplicate_association(
+        &mut self,
+        addr: u16,
+        config: AssociationConfig,
+    ) -> bool {
         let clock = Clock {
             offset: Arc::new(Mutex::new(Some(0))),
             start: self.start,
